@@ -112,6 +112,7 @@ func check(prop, tier string) int {
 	}
 
 	violations := 0
+	replayTries := 0 // generic replays attempted for obligations without a model (bounded: each costs a solver run)
 	var curReplay *ReplaySpec
 	violate := func(obName, reason, body string, found bool) {
 		violations++
@@ -256,6 +257,14 @@ func check(prop, tier string) int {
 					body += "\n--- replay ---\n" + out
 				}
 				curReplay = findings[i].Replay
+			}
+		}
+		if !found && (r.Status == "sat" || replayTries < 3) {
+			replayTries++
+			// generic replay: the model's inputs on the real code
+			if ok, rep := o.TryReplay(repoRoot()); rep != "" {
+				body += "\n" + rep
+				found = ok
 			}
 		}
 		violate(o.Name, "obligation-"+r.Status, body, found)
